@@ -67,49 +67,55 @@ Section Api.
   Variable perfile : path -> option content -> list V.
   Variable rep_blocks : list fv -> list fv -> list V.
   Variable rep_consts rep_st : list fv -> list V.
-  Variable hard_excl ignored : path -> bool.
+  Variable hard_excl : path -> bool.
+  Variable ignored : option content -> path -> bool.
+  Variable ign_path : path.
   Variable in_dir : nat -> path -> bool.
 
   Notation run_entry := (run_entry V perfile rep_blocks rep_consts rep_st hard_excl ignored).
   Notation run_single := (run_single V perfile rep_blocks rep_consts rep_st hard_excl ignored).
-  Notation step := (step V perfile rep_blocks rep_consts rep_st hard_excl ignored in_dir).
-  Notation run := (run V perfile rep_blocks rep_consts rep_st hard_excl ignored in_dir).
-  Notation freshN := (fresh V perfile rep_blocks rep_consts rep_st hard_excl ignored in_dir).
-  Notation fresh_run := (fresh_run V perfile rep_blocks rep_consts rep_st hard_excl ignored in_dir).
-  Notation cli_run := (cli_run V perfile rep_blocks rep_consts rep_st hard_excl ignored in_dir).
-  Notation api_run := (api_run V perfile rep_blocks rep_consts rep_st hard_excl ignored in_dir).
+  Notation step := (step V perfile rep_blocks rep_consts rep_st hard_excl ignored ign_path in_dir).
+  Notation run := (run V perfile rep_blocks rep_consts rep_st hard_excl ignored ign_path in_dir).
+  Notation freshN := (fresh V perfile rep_blocks rep_consts rep_st hard_excl ignored ign_path in_dir).
+  Notation fresh_run := (fresh_run V perfile rep_blocks rep_consts rep_st hard_excl ignored ign_path in_dir).
+  Notation cli_run := (cli_run V perfile rep_blocks rep_consts rep_st hard_excl ignored ign_path in_dir).
+  Notation api_run := (api_run V perfile rep_blocks rep_consts rep_st hard_excl ignored ign_path in_dir).
+  Notation mk_init := (mk_init ign_path).
   Notation coherent := (coherent ignored).
   Notation pfout := (pfout V perfile hard_excl ignored).
   Notation pf1 := (pf1 V perfile hard_excl ignored).
+  Notation REF := (run_entry_finalizing V perfile rep_blocks rep_consts rep_st hard_excl ignored).
+  Notation RSC := (run_single_char V perfile rep_blocks rep_consts rep_st hard_excl ignored).
 
   (* ---------- 1. directory / file list = union of the files, for everything check() returns ---------- *)
-  Lemma single_file_pf q fs p : o_pf (freshN q fs (LintFile p)) = pf1 fs p.
+  (* (for an object whose ignore parser holds the current patterns: ppats st = the ignore file of fs) *)
+  Lemma single_file_pf q fs p : o_pf (freshN q fs (LintFile p)) = pf1 (fs_get fs ign_path) fs p.
   Proof.
     unfold OrchHist.fresh. cbn [OrchHist.step].
-    pose proof (run_single_char V perfile rep_blocks rep_consts rep_st hard_excl ignored q "lint_file" fs init p (coherent_nil ignored)) as (_ & _ & Hp).
+    pose proof (RSC q "lint_file" fs (mk_init fs) p (coherent_init ignored _)) as (_ & _ & _ & Hp).
     destruct (Hp gen_lint_file_no_finalize) as (H1 & _).
-    destruct (run_single q "lint_file" fs init p) as [s r]. cbn [fst snd] in *. rewrite H1. cbn [o_pf].
+    destruct (run_single q "lint_file" fs (mk_init fs) p) as [s r]. cbn [fst snd] in *. rewrite H1. cbn [o_pf].
     unfold OrchHistBase.pfout. cbn [flat_map]. apply app_nil_r.
   Qed.
 
-  Lemma pfout_union q fs ps : pfout fs ps = flat_map (fun p => o_pf (freshN q fs (LintFile p))) ps.
+  Lemma pfout_union q fs ps : pfout (fs_get fs ign_path) fs ps = flat_map (fun p => o_pf (freshN q fs (LintFile p))) ps.
   Proof. unfold OrchHistBase.pfout. apply flat_map_ext. intros p. symmetry. apply single_file_pf. Qed.
 
-  Theorem files_is_union q st fs ps : coherent (icache st) ->
+  Theorem files_is_union q st fs ps : coherent st -> ppats st = fs_get fs ign_path ->
     o_pf (snd (step q (st, fs) (LintFiles ps))) = flat_map (fun p => o_pf (freshN q fs (LintFile p))) ps.
   Proof.
-    intros C. cbn [OrchHist.step].
-    pose proof (run_entry_finalizing V perfile rep_blocks rep_consts rep_st hard_excl ignored q "lint_files" fs st ps gen_lint_files_finalizes C) as (H1 & _).
-    destruct (run_entry q "lint_files" fs st ps) as [s r]. cbn [fst snd] in *. rewrite H1. cbn [o_pf]. apply pfout_union.
+    intros C S. cbn [OrchHist.step].
+    pose proof (REF q "lint_files" fs st ps gen_lint_files_finalizes C) as (H1 & _).
+    destruct (run_entry q "lint_files" fs st ps) as [s r]. cbn [fst snd] in *. rewrite H1, S. cbn [o_pf]. apply pfout_union.
   Qed.
 
-  Theorem dir_is_union q st fs d l : coherent (icache st) ->
+  Theorem dir_is_union q st fs d l : coherent st -> ppats st = fs_get fs ign_path ->
     o_pf (snd (step q (st, fs) (LintDir d l))) = flat_map (fun p => o_pf (freshN q fs (LintFile p))) (walk in_dir fs d l)
     /\ o_pf (snd (step q (st, fs) (ApiLint (TDir d l)))) = flat_map (fun p => o_pf (freshN q fs (LintFile p))) (walk in_dir fs d l).
   Proof.
-    intros C. cbn [OrchHist.step]. rewrite gen_api_dir_entry.
-    pose proof (run_entry_finalizing V perfile rep_blocks rep_consts rep_st hard_excl ignored q "lint_directory" fs st (walk in_dir fs d l) gen_lint_directory_finalizes C) as (H1 & _).
-    destruct (run_entry q "lint_directory" fs st (walk in_dir fs d l)) as [s r]. cbn [fst snd] in *. rewrite H1. cbn [o_pf].
+    intros C S. cbn [OrchHist.step]. rewrite gen_api_dir_entry.
+    pose proof (REF q "lint_directory" fs st (walk in_dir fs d l) gen_lint_directory_finalizes C) as (H1 & _).
+    destruct (run_entry q "lint_directory" fs st (walk in_dir fs d l)) as [s r]. cbn [fst snd] in *. rewrite H1, S. cbn [o_pf].
     split; apply pfout_union.
   Qed.
 
@@ -118,14 +124,14 @@ Section Api.
     o_pf (api_run q fs (TFile p)) = o_pf (freshN q fs (LintFile p)).
   Proof.
     intros E. unfold OrchHist.api_run, OrchHist.fresh at 1. cbn [OrchHist.step]. rewrite E.
-    pose proof (run_single_char V perfile rep_blocks rep_consts rep_st hard_excl ignored q (api_file_entry q) fs init p (coherent_nil ignored)) as (_ & Hf & Hp).
+    pose proof (RSC q (api_file_entry q) fs (mk_init fs) p (coherent_init ignored _)) as (_ & _ & Hf & Hp).
     rewrite single_file_pf. destruct (api_entry_cases q) as [Ea|Ea]; rewrite Ea in *.
     - destruct (Hp gen_lint_file_no_finalize) as (H1 & _).
-      destruct (run_single q "lint_file" fs init p) as [s r]. cbn [fst snd] in *. rewrite H1. cbn [o_pf].
+      destruct (run_single q "lint_file" fs (mk_init fs) p) as [s r]. cbn [fst snd] in *. rewrite H1. cbn [o_pf].
       unfold OrchHistBase.pfout. cbn [flat_map]. apply app_nil_r.
     - specialize (Hf gen_lint_files_finalizes).
-      pose proof (run_entry_finalizing V perfile rep_blocks rep_consts rep_st hard_excl ignored q "lint_files" fs init [p] gen_lint_files_finalizes (coherent_nil ignored)) as (H1 & _).
-      destruct (run_single q "lint_files" fs init p) as [s r]. rewrite <- Hf in H1. cbn [fst snd] in *. rewrite H1. cbn [o_pf].
+      pose proof (REF q "lint_files" fs (mk_init fs) [p] gen_lint_files_finalizes (coherent_init ignored _)) as (H1 & _).
+      destruct (run_single q "lint_files" fs (mk_init fs) p) as [s r]. rewrite <- Hf in H1. cbn [fst snd] in *. rewrite H1. cbn [o_pf].
       unfold OrchHistBase.pfout. cbn [flat_map]. apply app_nil_r.
   Qed.
 
@@ -137,7 +143,7 @@ Section Api.
   Proof.
     unfold OrchHist.cli_run, OrchHist.api_run, OrchHist.fresh. rewrite cli_guard.
     cbn [cli_ops map app fst snd OrchHist.run OrchHist.step]. rewrite gen_api_dir_entry.
-    destruct (run_entry q "lint_directory" fs init (walk in_dir fs d l)) as [s r]. reflexivity.
+    destruct (run_entry q "lint_directory" fs (mk_init fs) (walk in_dir fs d l)) as [s r]. reflexivity.
   Qed.
 
   Theorem api_eq_cli_file q fs p c : q_api_file_no_finalize q = false -> fs_get fs p = Some c ->
@@ -146,7 +152,7 @@ Section Api.
     intros A E. unfold OrchHist.cli_run, OrchHist.api_run, OrchHist.fresh. rewrite cli_guard.
     cbn [cli_ops map app fst snd OrchHist.run OrchHist.step]. rewrite E, (api_entry_when_off q A).
     unfold OrchHist.run_single. rewrite gen_lint_files_finalizes.
-    destruct (run_entry q "lint_files" fs init [p]) as [s r]. reflexivity.
+    destruct (run_entry q "lint_files" fs (mk_init fs) [p]) as [s r]. reflexivity.
   Qed.
 
   (* ---------- 3. several command-line targets: each is reported as a run of its own ---------- *)
@@ -159,22 +165,26 @@ Section Api.
   Qed.
 
   Lemma cli_ops_batch q files dirs :
-    forallb (fun o => negb (bare_single q o)) (cli_ops files dirs) = true /\ forallb lint_op (cli_ops files dirs) = true.
+    forallb (fun o => negb (bare_single q o)) (cli_ops files dirs) = true /\ forallb lint_op (cli_ops files dirs) = true
+    /\ hist_synced ign_path false (cli_ops files dirs) = true.
   Proof.
-    unfold cli_ops. rewrite !forallb_app. split; apply andb_true_iff; split.
-    - destruct files; reflexivity.
-    - induction dirs as [|d r IH]; [reflexivity|]. cbn [map forallb bare_single negb andb]. exact IH.
-    - destruct files; reflexivity.
-    - induction dirs as [|d r IH]; [reflexivity|]. cbn [map forallb lint_op andb]. exact IH.
+    unfold cli_ops. assert (HD : forall ds : list (nat * list path),
+               forallb (fun o => negb (bare_single q o)) (map (fun d => LintDir (fst d) (snd d)) ds) = true
+               /\ forallb lint_op (map (fun d => LintDir (fst d) (snd d)) ds) = true
+               /\ hist_synced ign_path false (map (fun d => LintDir (fst d) (snd d)) ds) = true).
+    { induction ds as [|d r (I1 & I2 & I3)]; [repeat split|]. cbn [map forallb bare_single negb andb lint_op hist_synced].
+      repeat split; assumption. }
+    destruct (HD dirs) as (H1 & H2 & H3). destruct files as [|f fr]; cbn [app]; [repeat split; assumption|].
+    cbn [forallb bare_single negb andb lint_op hist_synced]. repeat split; assumption.
   Qed.
 
   Theorem cli_targets_independent q fs files dirs :
-    q_dry_keeps_storage q = false ->
+    q_dry_keeps_storage q = false -> q_ignore_parser_reused q = false ->
     cli_run q fs files dirs = map (freshN q fs) (cli_ops files dirs).
   Proof.
-    intros D. unfold OrchHist.cli_run. rewrite cli_guard.
-    destruct (cli_ops_batch q files dirs) as [B L].
-    rewrite (history_independent_batch V perfile rep_blocks rep_consts rep_st hard_excl ignored in_dir q fs (cli_ops files dirs) D B).
+    intros D R. unfold OrchHist.cli_run. rewrite cli_guard.
+    destruct (cli_ops_batch q files dirs) as (B & L & HS).
+    rewrite (history_independent_batch V perfile rep_blocks rep_consts rep_st hard_excl ignored ign_path in_dir q fs (cli_ops files dirs) D R B HS).
     now apply fresh_run_lint_only.
   Qed.
 End Api.
